@@ -36,7 +36,7 @@ TInit == Init /\ tid \in 1..Len(Batch.traces) /\ l = 1
 TFmt == /\ More /\ Ev.ev = "fmt" /\ Consume
         /\ CASE Ev.fault = "none" -> FmtOk
              [] Ev.fault = "fmt-error" -> FmtError          \* non-zero exit of the command / exception inside black
-             [] Ev.fault = "fmt-garbage" -> FmtGarbage
+             [] Ev.fault = "fmt-garbage" -> (FmtGarbage \/ FmtCheckGarbage)
              [] Ev.fault = "exception" -> Exception         \* the invocation itself raised (e.g. undecodable output)
              [] Ev.fault = "crash" -> Crash
              [] OTHER -> FALSE
@@ -72,6 +72,7 @@ Silent == /\ Keep
              \/ (Write /\ PrevFault \notin {"write-exception", "write-crash"})
              \/ (sub = "write" /\ PrevFault = "write-exception" /\ Exception)
              \/ (sub = "write" /\ PrevFault = "write-crash" /\ Crash)
+             \/ (phase = "write" /\ sub = "compute" /\ buf = "garbage" /\ ParseInWrite /\ Open)   \* refused before the open
              \/ (Trim /\ ~More)
              \/ NextStart
 TNext == TFmt \/ TRead \/ TRename \/ TOpenW \/ TRemove \/ Silent
